@@ -157,6 +157,115 @@ fn transposition_check(case: &Value, stats: &mut Stats) -> CheckResult {
     Ok(())
 }
 
+/// A chain against every proper prefix of itself, on start positions whose counters no longer move (both at
+/// u16::MAX, where they saturate): after a reversible four-ply cycle the prefix and the whole chain end in an
+/// *identical* position, so only the move lists tell them apart. `case` = position case + {"cnt", "cycles"}.
+fn prefix_check(case: &Value, stats: &mut Stats) -> CheckResult {
+    let (_, mut r) = match case_board(case, stats)? {
+        Some(x) => x,
+        None => return Ok(()),
+    };
+    match case["cnt"].as_u64().unwrap_or(0) {
+        0 => {
+            r.half = u16::MAX;
+            r.full = u16::MAX;
+        }
+        1 => r.full = u16::MAX,
+        2 => r.half = u16::MAX,
+        _ => {}
+    }
+    r.ep = None; // a pending mark cannot recur
+    let b = match Board::try_from(raw_from_ref(&r)) {
+        Ok(b) => b,
+        Err(_) => {
+            stats.skip("gate_rejected_position_with_changed_counters");
+            return Ok(());
+        }
+    };
+    // the moves: a reversible cycle repeated, or (where the position has none) a short playout
+    let moves: Vec<crate::refmodel::RefMove> = match any_cycle(&r) {
+        Some(c) => {
+            let n = 4 * (1 + case["cycles"].as_u64().unwrap_or(0) as usize % 3);
+            (0..n).map(|i| c[i % 4]).collect()
+        }
+        None => {
+            stats.label("no_reversible_cycle:playout_instead");
+            let mut v = Vec::new();
+            let mut p = r.clone();
+            for i in 0..6usize {
+                let l = p.legal();
+                if l.is_empty() {
+                    break;
+                }
+                let m = l[(case["cycles"].as_u64().unwrap_or(0) as usize + i * 7) % l.len()];
+                p = p.apply(&m);
+                v.push(m);
+            }
+            v
+        }
+    };
+    let n = moves.len();
+    let build = |len: usize| -> Result<MoveChain, Failure> {
+        let mut c = MoveChain::new(b.clone());
+        for m in &moves[..len] {
+            c.push(mv_to_lib(m).map_err(Failure::new)?).map_err(|e| Failure::new(format!("legal move {} refused: {}", m.uci(), e)))?;
+        }
+        Ok(c)
+    };
+    let whole = build(n)?;
+    let again = build(n)?;
+    ensure!(whole == again && again == whole, "two chains with the same start, moves and outcome compare unequal");
+    let mut by_pop = whole.clone();
+    for k in (0..n).rev() {
+        by_pop.pop();
+        let prefix = build(k)?;
+        ensure!(prefix == by_pop && by_pop == prefix, "a chain popped back to {} moves and a chain built with those {} moves compare unequal", k, k);
+        let same_end = prefix.last().raw() == whole.last().raw();
+        for (x, how) in [(&prefix, "built"), (&by_pop, "popped")] {
+            ensure!(*x != whole && whole != *x, "a chain of {} moves and its prefix of {} moves ({}) compare equal (final positions {})", n, k, how,
+                if same_end { "identical, counters included" } else { "different" });
+        }
+        if same_end {
+            stats.label("prefix_with_identical_final_position");
+            stats.nontrivial(&(r.rep_key(), n, k));
+        }
+    }
+    Ok(())
+}
+
+/// Four quiet non-pawn moves a, x, a-back, x-back (kings and rooks included, as long as no right is lost) that
+/// return to the same position.
+fn any_cycle(r: &crate::refmodel::RefPos) -> Option<[crate::refmodel::RefMove; 4]> {
+    use crate::refmodel::*;
+    let quiet = |p: &RefPos| -> Vec<RefMove> { p.legal().into_iter().filter(|m| m.kind == Kind::Simple && m.man.1 != Pc::P && !p.is_capture(m)).collect() };
+    for a in quiet(r) {
+        let p1 = r.apply(&a);
+        for x in quiet(&p1) {
+            let p2 = p1.apply(&x);
+            let ab = RefMove { kind: Kind::Simple, man: a.man, from: a.to, to: a.from };
+            if !p2.legal().contains(&ab) {
+                continue;
+            }
+            let p3 = p2.apply(&ab);
+            let xb = RefMove { kind: Kind::Simple, man: x.man, from: x.to, to: x.from };
+            if !p3.legal().contains(&xb) {
+                continue;
+            }
+            if p3.apply(&xb).rep_key() == r.rep_key() {
+                return Some([a, x, ab, xb]);
+            }
+        }
+    }
+    None
+}
+
+fn gen_prefix_case(cur: &mut Cursor) -> Value {
+    let mut case = gen_pos_case(cur);
+    case["cnt"] = Value::from(cur.below(6));
+    case["cycles"] = Value::from(cur.below(3));
+    case
+}
+
 pub fn property() -> Property {
     Property {
         id: "C13",
@@ -168,7 +277,7 @@ pub fn property() -> Property {
                (raw + internal consistency) equal the model; refused pushes change nothing; pop returns the latest accepted move and clears \
                the outcome; after pops/lists/clones and at the end the whole move list and a replay through Board::make_move are compared \
                in full. Equality: a chain rebuilt from the UCI text compares equal; changing the outcome, the length, one move or the \
-               start position's move number makes it unequal; equality_transpositions: two move orders a x b y / b x a y reaching an identical position (same start, length, outcome) must compare unequal. push/set_outcome/set_auto_outcome are issued only while no outcome is \
+               start position's move number makes it unequal; equality_transpositions: two move orders a x b y / b x a y reaching an identical position (same start, length, outcome) must compare unequal; equality_prefixes: a chain of 4-12 cycle moves against every proper prefix of itself (built and popped), on starts whose counters are saturated so that prefix and chain end in identical positions. push/set_outcome/set_auto_outcome are issued only while no outcome is \
                stored (documented precondition). Non-trivial = history with (a refused push and a pop) or an outcome op; distinct by case.",
         assumptions: &["reference apply() and legal(); push / set_outcome / set_auto_outcome respect the documented 'outcome must be unset' precondition"],
         subchecks: vec![SubCheck {
@@ -199,6 +308,15 @@ pub fn property() -> Property {
             check: transposition_check,
             configs: Configs::ReleaseOnly,
             required: &["transposed_pair"],
+            regressions: &[],
+            exhaustive: false,
+        },
+        SubCheck {
+            name: "equality_prefixes",
+            driver: Driver::Generated { gen: gen_prefix_case, genome_len: 200, quick: 150_000, thorough: 1_200_000 },
+            check: prefix_check,
+            configs: Configs::ReleaseOnly,
+            required: &["prefix_with_identical_final_position"],
             regressions: &[],
             exhaustive: false,
         }],
